@@ -418,6 +418,8 @@ func (e *Ev) callStatic(fn *types.Func, recv *Term, args []Term, n *ast.CallExpr
 			nm := e.g().freshName("r$" + sanitize(fn.Name()))
 			e.st.declare(nm, rs)
 			results = append(results, Term{S: nm, Sort: rs, T: rt, Signed: isSigned(rt)})
+			// a returned slice value is well-formed
+			e.wfSlice(results[len(results)-1])
 		}
 	}
 	// objects allocated by this call (predicate alloc$k, which implies fresh$) are not referenced
